@@ -209,33 +209,28 @@ def attach_m2(mon=MON, table_fn=None, check_valence=True):
 
 def _judge_writer(mol, smi, mon):
     mon.counts["M2.writes"] += 1
-    reads = None
-    try:
-        reads = [read_smiles(smi)]
-    except SmilesSyntaxError as e:
-        if has_long_percent_run(smi):
-            mon.counts["M2.long_label_outputs"] += 1
-            reads = _segmented_iter(smi, mon)
-        else:
-            mon.flag("M2", "writer output unreadable (%s): %s" % (e, smi[:160]))
-            return
     want = {}
     for (a, b), bond in mol._bond_dict.items():
         want[(a, b) if a < b else (b, a)] = bond.order
     first_err = None
-    budget0 = mon.counts["M2.segmentation_budget"]
-    for m in reads:
-        err = _compare_graph(mol, m, want)
+    try:
+        err = _compare_graph(mol, read_smiles(smi), want)
         if err is None:
             return
-        if first_err is None:
-            first_err = err
-        if m.seg is None:
-            break
-    if mon.counts["M2.segmentation_budget"] > budget0:
-        return      # search cut short: inconclusive for this call, never a verdict
-    if first_err:
-        mon.flag("M2", first_err + " :: " + smi[:160])
+        first_err = err
+    except SmilesSyntaxError as e:
+        first_err = "writer output unreadable (%s)" % e
+    if has_long_percent_run(smi):
+        # >= 100 ring labels: the text is ambiguous (F1); the standard read may fail or, by accident,
+        # succeed as another molecule.  Judge through the segmentation search instead.
+        mon.counts["M2.long_label_outputs"] += 1
+        budget0 = mon.counts["M2.segmentation_budget"]
+        for m in _segmented_iter(smi, mon):
+            if _compare_graph(mol, m, want) is None:
+                return
+        if mon.counts["M2.segmentation_budget"] > budget0:
+            return      # search cut short: inconclusive for this call, never a verdict
+    mon.flag("M2", first_err + " :: " + smi[:160])
 
 
 def _segmented_iter(smi, mon):
